@@ -54,6 +54,15 @@ BoundaryList == <<
                                         !.asserts = <<PerA(0, 1, 2), Single(1, 0)>>],
    [B(2, <<"pcol", "per">>) EXCEPT !.pcyc = <<8>>, !.log_len = 3, !.init = <<PerValue(0, 8, 7), 3>>,
                                    !.asserts = <<PerA(0, 0, 8), Single(1, 7)>>],
+   [B(2, <<"pcol", "per">>) EXCEPT !.pcyc = <<8>>, !.log_len = 3, !.init = <<PerValue(0, 8, 7), 3>>,
+                                   !.asserts = <<PerA(0, 7, 8), Single(1, 7)>>, !.exemptions = 2],
+   \* auxiliary columns asserted at a step no main assertion covers (a divisor group of their own): geometric
+   \* auxiliary columns aux[m][i] = (m + 2)^i, whose value at every step is public
+   [B(2, <<"sum", "mul2">>) EXCEPT !.aux = <<[width |-> 2, rands |-> 1, src |-> <<0, 1>>, geo |-> TRUE, astep |-> 7]>>],
+   [B(2, <<"sum", "mul2">>) EXCEPT !.aux = <<[width |-> 3, rands |-> 2, src |-> <<0, 1, 0>>, geo |-> TRUE, astep |-> 13]>>,
+                                  !.log_len = 5, !.ext = 2, !.asserts = <<Single(0, 0), Single(1, 31)>>],
+   [B(3, <<"sum", "mul2", "cube">>) EXCEPT !.aux = <<[width |-> 1, rands |-> 1, src |-> <<2>>, geo |-> TRUE, astep |-> 1]>>,
+                                  !.log_len = 4, !.ext = 3, !.asserts = <<SeqA(0, 0, 4, 4)>>],
    \* all batching methods on both sides
    [B(2, <<"sum", "mul2">>) EXCEPT !.cbatch = 1, !.dbatch = 2, !.ext = 2],
    [B(2, <<"sum", "mul2">>) EXCEPT !.cbatch = 2, !.dbatch = 1, !.ext = 3],
